@@ -9,7 +9,8 @@ import NdonnxVerif.Model.ReduceVal
 indexing / layout / shape-arithmetic computation traced on placeholders (`Identity` stripped, node outputs
 inlined).  `eval` is the meaning of those ONNX operators on integer-valued N-d index-function tensors
 (`Tensor Int`; booleans are 0/1): `Slice`, `Gather`, `Unsqueeze`, `Squeeze`, `Transpose`, `Reshape(allowzero=1)`,
-`Expand`, `Concat`, `Shape`, `Range`, `Cast`, `Add/Sub/Mul`, `Mod(fmod=0)`, `Equal`, `Where`.  The data-movement
+`Expand`, `Concat`, `Shape`, `Range`, `Cast`, `Add/Sub/Mul`, `Mod(fmod=0)`, `Equal`, `Where`, `Reduce*`, `Compress(axis=0)`,
+`GatherElements(axis=0)`, `ScatterND`.  The data-movement
 operators do not inspect the elements, so what is proved about them on integer tokens is what ONNX specifies for
 every element type (`T: tensor(...)` of any type); the check repeats the structural comparison for every dtype.
 
@@ -48,6 +49,11 @@ inductive TG where
   | sel (c x y : TG)
   | not (x : TG)
   | reduce (k : RKind) (keepdims noop : Bool) (x axes : TG)   -- ReduceSum/Prod/Min/Max on int64
+  | shapeFrom (start : Nat) (x : TG)                 -- Shape(start = k), no end
+  | slice3 (x starts ends : TG)                      -- Slice without axes / steps: axes 0.., unit steps
+  | compress (x cond : TG)                           -- Compress(axis = 0)
+  | gatherElements (x idx : TG)                      -- GatherElements(axis = 0)
+  | scatterND (x idx upd : TG)                       -- ScatterND(reduction = none)
 deriving DecidableEq, Repr, Inhabited
 
 /-! ## operator semantics -/
@@ -177,6 +183,34 @@ def reduceOp (k : RKind) (keepdims noop : Bool) (t : Tensor Int) (axes : List In
   | .min => reduceT (fun acc v => if v < acc then v else acc) int64Max t red keepdims
   | .max => reduceT (fun acc v => if v > acc then v else acc) int64Min t red keepdims
 
+/-- `Compress(axis=0)`: the condition is read as booleans (non-zero = selected). -/
+def compressOp (t : Tensor α) (cond : Tensor Int) : Tensor α :=
+  onnxCompress0 t (cond.toFlat.map (fun v => decide (v ≠ 0)))
+
+/-- `GatherElements(axis=0)`: `out[i, rest] = x[idx[i, rest], rest]` (negative entries count from the end). -/
+def gatherElementsOp (t : Tensor α) (idx : Tensor Int) : Tensor α :=
+  let n : Int := t.shape.headD 0
+  ⟨idx.shape, fun ix =>
+    let i := idx.get ix
+    t.get ((if i < 0 then i + n else i).toNat :: ix.tail)⟩
+
+/-- The index path written by the update at `o`: the last axis of `idx` read as coordinates of the leading axes of the
+data (negative entries count from the end). -/
+def scatterPath (shape : List Nat) (idx : Tensor Int) (o : List Nat) : List Nat :=
+  (List.range (idx.shape.getLastD 0)).map (fun j =>
+    let i := idx.get (o ++ [j])
+    let n : Int := shape.getD j 0
+    (if i < 0 then i + n else i).toNat)
+
+/-- `ScatterND(reduction=none)`: `out = x`; then for every index `o` of the leading axes of `idx`, in row-major order,
+`out[path(o)] = upd[o]` (a slice when the path is shorter than the rank); later writes win. -/
+def scatterNDOp (t : Tensor α) (idx : Tensor Int) (upd : Tensor α) : Tensor α :=
+  let k := idx.shape.getLastD 0
+  ⟨t.shape, fun p =>
+    match (allIdx idx.shape.dropLast).reverse.find? (fun o => scatterPath t.shape idx o == p.take k) with
+    | some o => upd.get (o ++ p.drop k)
+    | none => t.get p⟩
+
 /-! ## evaluation -/
 
 def TG.eval (env : List (Tensor Int)) : TG → Tensor Int
@@ -197,6 +231,13 @@ def TG.eval (env : List (Tensor Int)) : TG → Tensor Int
   | .sel c x y => bcast3 (TG.eval env c) (TG.eval env x) (TG.eval env y)
   | .not x => (TG.eval env x).map (fun v => b2i (v == 0))
   | .reduce k kd noop x axes => reduceOp k kd noop (TG.eval env x) (TG.eval env axes).toFlat
+  | .shapeFrom k x => vec (((TG.eval env x).shape.drop k).map Int.ofNat)
+  | .slice3 x s e =>
+      let st := (TG.eval env s).toFlat
+      sliceOp (TG.eval env x) st (TG.eval env e).toFlat ((List.range st.length).map Int.ofNat) (st.map (fun _ => 1))
+  | .compress x c => compressOp (TG.eval env x) (TG.eval env c)
+  | .gatherElements x i => gatherElementsOp (TG.eval env x) (TG.eval env i)
+  | .scatterND x i u => scatterNDOp (TG.eval env x) (TG.eval env i) (TG.eval env u)
 
 /-! ## canonical text (identical to the translator's rendering) -/
 
@@ -228,5 +269,10 @@ def TG.render : TG → String
   | .sel c x y => s!"(Where {TG.render c} {TG.render x} {TG.render y})"
   | .not x => s!"(Not {TG.render x})"
   | .reduce k kd noop x axes => s!"({k.render} {if kd then 1 else 0} {if noop then 1 else 0} {TG.render x} {TG.render axes})"
+  | .shapeFrom k x => s!"(ShapeFrom {k} {TG.render x})"
+  | .slice3 x s e => s!"(Slice3 {TG.render x} {TG.render s} {TG.render e})"
+  | .compress x c => s!"(Compress0 {TG.render x} {TG.render c})"
+  | .gatherElements x i => s!"(GatherElements0 {TG.render x} {TG.render i})"
+  | .scatterND x i u => s!"(ScatterND {TG.render x} {TG.render i} {TG.render u})"
 
 end Ndx.TGraph
